@@ -652,4 +652,80 @@ def XR.ofOpt : Option Rat → XR
   | none => .nan
   | some r => .fin r
 
+/-! ### round 5, continued: the climate kernel on IEEE data; the two surrogate tests with every
+size and shape test read off the generated tables -/
+
+/-- `_mutual_information` with `scaling = s`, `range_min = m` (C `float`s, any IEEE value) on an
+`(N, T)` float32 array of IEEE values and the work arrays the wrapper allocates; `(long)` conversions -/
+def miKernelX (s m : XR) (N T : Nat) (nb : Int) (d : XData) : Verdict :=
+  if convsOKX 64 N T s m nb d.at then
+    verdictOf (miSizes N T nb.toNat)
+      (miTrace N T nb.toNat (fun i k => (symbolX s m nb (d.at i k)).getD 0))
+  else .oob
+
+/-- what a Python method does before it calls its raw-pointer Cython wrapper, as far as the sizes go -/
+inductive Front
+  | raise                    -- a shape test of the method fails
+  | sizes (Np Tp : Nat)      -- the two integers handed to the wrapper
+  | unknown                  -- a source the model cannot evaluate
+deriving Repr, DecidableEq
+
+/-- `checks`: pairs of pointer positions whose arrays must have equal shapes (generated
+`…_pychecks`); `rows`: where the integers `nName`, `tName` are taken from (generated `…_pysizes`) -/
+def pyFront (rows : List SizeRow) (checks : List (Nat × Nat)) (nName tName : String)
+    (shapes : List (List Nat)) : Front :=
+  if checks.any (fun c => shapes.getD c.1 [] != shapes.getD c.2 []) then .raise
+  else
+    match resolveSize rows nName shapes 0, resolveSize rows tName shapes 0 with
+    | some a, some b => .sizes a b
+    | _, _ => .unknown
+
+/-- `Surrogates.test_pearson_correlation(original_data (N, T), surrogates (N2, T2))` with the shape
+test and the integers `N`, `n_time` as the generated tables give them; `correlation` is allocated
+`(N, N)` from the integer, `norm = 1.0 / float(n_time)` raises for 0 -/
+def pearsonObjCall (rows : List SizeRow) (checks : List (Nat × Nat)) (N T N2 T2 : Nat) : Verdict :=
+  match pyFront rows checks "N" "n_time" [[N, T], [N2, T2]] with
+  | .raise => .raise
+  | .unknown => .oob
+  | .sizes Np Tp =>
+      if Tp = 0 then .raise
+      else verdictOf [N * T * 8, N2 * T2 * 8, Np * Np * 4] (pearsonTrace Np Tp)
+
+/-- entry `idx` of the row-major array `d`; outside: foreign memory (NaN here — the load itself is
+already out of bounds) -/
+def XData.flatAt (d : XData) (idx : Nat) : XR := d.flatten.getD idx .nan
+
+/-- `Surrogates.test_mutual_information` with *everything* the translator reads as a parameter:
+size sources and shape tests (`tmi_pysizes`, `tmi_pychecks`), range terms and scaling expression.
+When the integers are the axes of both arrays this is `tmiCallX`; otherwise the work arrays are
+allocated from the integers and the samples are read at the flat offsets the kernel forms. -/
+def tmiObjCallX (rows : List SizeRow) (checks : List (Nat × Nat))
+    (rmin rmax : String × List (String × String)) (scal : String)
+    (N T N2 T2 : Nat) (nb : Int) (dO dS : XData) : Verdict :=
+  if nb < 1 then .raise
+  else
+    match pyFront rows checks "N" "n_time" [[N, T], [N2, T2]] with
+    | .raise => .raise
+    | .unknown => .oob
+    | .sizes Np Tp =>
+        if Np = N ∧ Tp = T ∧ N2 = N ∧ T2 = T then tmiCallX rmin rmax scal N T N2 T2 nb dO dS
+        else if (2 : Int) ^ 31 ≤ nb then .raise
+        else if N * T = 0 ∨ N2 * T2 = 0 then .raise        -- `.min()` of an empty array
+        else if scal != "1.0 / (range_max - range_min)" then .oob
+        else
+          match rangeFromX dO dS rmin rmax with
+          | none => .oob
+          | some (mn, mx) =>
+              match XR.recip (XR.sub mx mn) with
+              | none => .raise
+              | some s =>
+                  let fO := fun i k => dO.flatAt (i * Tp + k)
+                  let fS := fun i k => dS.flatAt (i * Tp + k)
+                  if convsOKX 32 Np Tp s mn nb fO && convsOKX 32 Np Tp s mn nb fS then
+                    verdictOf [N * T * 8, N2 * T2 * 8, Np * Tp * 4, Np * Tp * 4,
+                               Np * nb.toNat * 4, Np * nb.toNat * 4, nb.toNat * nb.toNat * 4, Np * Np * 4]
+                      (tmiTrace Np Tp nb.toNat (fun i k => (symbolX s mn nb (fO i k)).getD 0)
+                                               (fun i k => (symbolX s mn nb (fS i k)).getD 0))
+                  else .oob
+
 end Pyunicorn.Access
